@@ -318,15 +318,20 @@ func main() {
 					continue
 				}
 				if code == 3 {
-					// the worker itself reported a hang
+					// the worker itself reported a hang: believe it only if the
+					// case hangs in isolation too (once one hang of this run is
+					// confirmed, later ones are kept without repeating that)
 					mu.Lock()
-					first := !hangConfirmed
-					hangConfirmed = true
+					known := hangConfirmed
 					mu.Unlock()
-					if !first {
-						return // shard stays incomplete; the violation is already on record
+					if known {
+						return // shard stays incomplete; the violation is on record
 					}
-					if !confirmHang(worker, prop, *tier, seed, idx, wenv, meta.stall) {
+					if confirmHang(worker, prop, *tier, seed, idx, wenv, meta.stall) {
+						mu.Lock()
+						hangConfirmed = true
+						mu.Unlock()
+					} else {
 						mu.Lock()
 						notes = append(notes, fmt.Sprintf("shard %d: case %d hung in the worker but not in isolation; dropped", sh, idx))
 						mu.Unlock()
